@@ -26,7 +26,7 @@ CONSTANTS
   ChanArgs <- Ch_route
   RkSet = {"ibc", "tss"}
   OrdSet = {"UNORDERED", "ORDERED"}
-  VerSet = {"tunnel-1"}
+  VerSet = {"tunnel-1", "", "bad"}
   HowSet = {"closed", "nocap"}
   MaxNow = 103
   NTun = 0
